@@ -239,6 +239,8 @@ def judge_c04(rec):
             out.append(V('kill-true-not-killed', 'kill-true-not-killed:%s' % pat(a), 'kill() returned True, state %s' % a['state_after']))
         elif a['kind'] == 'kill' and a['ret'] == ['value', False]:
             out.append(V('kill-false-live', 'kill-false-live:%s' % pat(a), 'kill() returned False on a live process'))
+        elif a['kind'] == 'kill' and a['ret'][0] == 'value' and a['ret'][1] is not True:
+            out.append(V('kill-return-type', 'kill-return-type:%s' % pat(a), 'kill() on a live process returned %r (neither True nor a future)' % (a['ret'][1],)))
     first = live_kills[0]
     # bounded progress: every quiescent point after a live kill request finds the process terminated
     for q in rec['qpoints']:
